@@ -219,7 +219,7 @@ func VerifH_C05_FilesReturnWhatWasWritten() {
 		nd.Assert(ValidateODSSize("/s/x.ods", sq) == nil, "written-files-have-the-expected-size")
 		nd.Cover("ods-only")
 	}
-	veriffs.Reboot() // validation leaves handles of its own (OpenODS) - not the subject here
+	nd.Assert(veriffs.OpenHandles() == 0, "size-validation-closes-the-files-it-opens")
 
 	ods, err := OpenODS("/s/x.ods")
 	nd.Assert(err == nil, "written-file-opens")
